@@ -4,7 +4,7 @@ CONSTANTS
  Ids = {"A", "B"}
  N = 2
  RA = 50
- Kinds = {"ok", "ok206", "short0", "short1", "short206", "okclbad", "ok200", "reset", "s429", "s429ra", "s408", "s500", "s502", "s504", "s403", "s503", "s404", "s416", "s401n", "s401s", "s401b"}
+ Kinds = {"ok", "ok206", "short0", "short1", "short206", "okclbad", "ok200", "reset", "s429", "s429ra", "s500ra", "s408", "s500", "s502", "s504", "s403", "s503", "s404", "s416", "s401n", "s401s", "s401b"}
  MaxFaults = 5
  MaxSeeks = 1
  Conc = 8
